@@ -12,10 +12,10 @@ cp $out/*_test.go $dir/ 2>/dev/null
 run=$(grep -oh 'func Test[A-Za-z0-9_]*' $out/*_test.go | sed 's/func //' | grep -i 'seed\|demo' | paste -sd'|')
 [ -z "$run" ] && run=$(grep -oh 'func Test[A-Za-z0-9_]*' $out/*_test.go | sed 's/func //' | paste -sd'|')
 echo "demo dir=$dir run=$run"
-go test -vet=off -count=1 -run "$run" ./$dir/ >/tmp/svv-base.log 2>&1; echo "base: demo rc=$? (expect 0)"
+go test $DEMOTAGS -vet=off -count=1 -run "$run" ./$dir/ >/tmp/svv-base.log 2>&1; echo "base: demo rc=$? (expect 0)"
 git apply $out/patch.diff || echo "PATCH FAILS TO APPLY"
 go build ./... || echo BUILD-FAIL
-go test -vet=off -count=1 -run "$run" ./$dir/ >/tmp/svv-mut.log 2>&1; echo "mutant: demo rc=$? (expect non-zero)"
+go test $DEMOTAGS -vet=off -count=1 -run "$run" ./$dir/ >/tmp/svv-mut.log 2>&1; echo "mutant: demo rc=$? (expect non-zero)"
 rm -f $dir/seeded*_test.go
 pk=$(grep '^+++ b/' $out/patch.diff | sed 's#+++ b/##' | xargs -n1 dirname | sort -u | sed 's#^#./#' | paste -sd' ')
 go test -vet=off -count=1 $pk ./pkg/consensus/... ./pkg/blockchain/ ./pkg/db/... ./pkg/txpool/ ./pkg/generator/ ./pkg/statemachine/ 2>&1 | grep -v "no test files" | grep -v "^ok" | head -5; echo "existing tests done (lines above = non-ok)"
